@@ -584,6 +584,13 @@ func (m *Message) PutString(ctx context.Context, s string) error {
 	data := []byte(truncated + "\x00")
 	length := len(data)
 
+	// On an encrypting stream the string travels behind an int32 length prefix: a
+	// longer string cannot be announced (the conversion below would wrap, and the
+	// peer would read a negative or a short length).
+	if isEncrypted && length > math.MaxInt32 {
+		return fmt.Errorf("string of %d bytes is too long for the int32 length prefix of an encrypted stream", length)
+	}
+
 	// Ensure we have space for the data (plus length prefix if encrypted)
 	needed := length
 	if isEncrypted {
@@ -642,6 +649,11 @@ func (m *Message) PutStringBytes(ctx context.Context, b []byte) error {
 		b = b[:nullIndex]
 	}
 	length := len(b) + 1 // + null terminator
+
+	// Same bound as PutString: the encrypted form carries an int32 length prefix.
+	if isEncrypted && length > math.MaxInt32 {
+		return fmt.Errorf("string of %d bytes is too long for the int32 length prefix of an encrypted stream", length)
+	}
 
 	needed := length
 	if isEncrypted {
